@@ -76,4 +76,7 @@ var vPrefixes = []string{
 	"JSIGHT 0.3\nTAG @t\nTAG @u\nGET /a\n  200 any\n  Tags @t @",                                                  // 71 a second (possibly repeated / unknown) tag
 	"JSIGHT 0.3\nURL /j\n  Protocol json-rpc-2.0\n  TAG @t\n  Method m\n    Params\n    {}\n    Tags @",          // 72 Tags of a JSON-RPC method
 	"JSIGHT 0.3\nSERVER @s\n  BaseUrl \"h\"\nSERVER @",                                                              // 73 a second server name
+	"JSIGHT 0.3\nENUM @e\n[1]\nTYPE @a\n{\"b\": @b}\nTYPE @b\n",                                                    // 74 a type used before its definition, with an ENUM in the project
+	"JSIGHT 0.3\nENUM @e\n[1]\nTYPE @a\n{\"b\": @b}\nTYPE @b\n{\"a\": @a, \"e\": 1 // {enum: @e}\n}\nTYPE @c\n",      // 75 a cycle of types and a third type
+	"JSIGHT 0.3\nTYPE @a\n{\"b\": @b // {optional: true}\n}\nTYPE @b\n{\"a\": @a, // {optional: true}\n\"x\": 5 // {min: ", // 76 a fault inside a cycle of types
 }
